@@ -14,7 +14,7 @@ ASSUMPTIONS = ["the per-variable DimArray operation is the oracle, as the proper
 FLOORS = {"op=take_scalar": (50, 50), "op=mean": (50, 50), "op=take_axis": (50, 50), "op=sort_axis": (50, 50), "op=reindex_axis": (50, 50),
           "op=interp_axis": (20, 20), "op=add_ds": (20, 20), "op=stack_ds": (20, 20), "op=concatenate_ds": (20, 20), "has-unaffected": (500, 500),
           "has-0d": (300, 300), "var-dims-reordered": (300, 300), "by-position": (500, 500), "op=construct_misaligned": (20, 20), "op=add_ds_misaligned": (20, 20), "op=concatenate_ds_align": (10, 10),
-          "op=take_scalar_keepdims": (50, 50), "op=reindex_right": (50, 50), "op=reindex_left": (50, 50), "op=concatenate_ds_mismatch": (10, 10), "rejects": (5, 5)}
+          "op=take_scalar_keepdims": (50, 50), "op=reindex_right": (50, 50), "op=take_axis_wrap": (50, 50), "op=reindex_left": (50, 50), "op=concatenate_ds_mismatch": (10, 10), "rejects": (5, 5)}
 
 LABELS = {"x": [4, 2, 6], "y": [6.0, 2.0], "z": ["k2", "k6"]}      # x shuffled, y decreasing, z increasing (str)
 
@@ -49,6 +49,8 @@ def _mk_var(dims, base):
     shape = [len(LABELS[d]) for d in dims]
     n = int(np.prod(shape)) if shape else 1
     vals = (np.arange(n, dtype=float) + base + 0.25).reshape(shape)
+    if n >= 2:
+        vals[np.unravel_index(n - 1, vals.shape)] = np.nan        # one missing value per variable (at the last stored position)
     v = A.DimArray(vals, axes=[A.Axis(np.array(LABELS[d], dtype=object) if d == "z" else LABELS[d], d) for d in dims])
     v.attrs["tag"] = "var%d" % base
     return v
@@ -121,6 +123,12 @@ def _ops(i, ds, ds2, ds3=None):
         return (lambda: getattr(ds, o)(axis=axd)), (lambda k, v: getattr(v, o)(axis=d))
     if o == "take_axis":
         return (lambda: ds.take_axis([l1, l0], axis=axd)), (lambda k, v: v.take_axis([l1, l0], axis=d))
+    if o == "take_axis_wrap":
+        return (lambda: ds.take_axis([len(L) + 1, -1, 1], axis=axd, indexing="position", mode="wrap")), \
+               (lambda k, v: v.take_axis([len(L) + 1, -1, 1], axis=d, indexing="position", mode="wrap"))
+    if o == "take_axis_clip":
+        return (lambda: ds.take_axis([len(L) + 1, 0], axis=axd, indexing="position", mode="clip")), \
+               (lambda k, v: v.take_axis([len(L) + 1, 0], axis=d, indexing="position", mode="clip"))
     if o == "sort_axis":
         return (lambda: ds.sort_axis(axis=axd)), (lambda k, v: v.sort_axis(axis=d))
     if o == "reindex_axis":
@@ -135,7 +143,7 @@ def _ops(i, ds, ds2, ds3=None):
         m = o[8:]
         return (lambda: ds.reindex_axis(new, axis=axd, method=m)), (lambda k, v: v.reindex_axis(new, axis=d, method=m))
     if o == "interp_axis":
-        new = [3.0, 5.0, 2.0] if d == "x" else [3.0, 6.0]
+        new = [3.0, 5.0, 2.0, 4.0] if d == "x" else [3.0, 6.0]       # 4.0: the label whose right neighbour holds the missing value
         return (lambda: ds.interp_axis(new, axis=axd)), (lambda k, v: v.interp_axis(new, axis=d))
     if o == "interp_axis_oob":
         new = [1.0, 5.0, 7.0]
